@@ -146,7 +146,7 @@ def writer_table(ctx: Ctx, rule: str, attr: str, allow: dict, floor: int, module
         ws = [w for w in ws if w[0] is None or cls_filter(w[0])]
     # the floor only guards against the field having been renamed (a table that matches nothing passes
     # vacuously); a removed writer is the business of the path rules, not an analysis error
-    ctx.floor(rule, f"writers of {attr}", len(ws), min(floor, 2))
+    ctx.floor(rule, f"writers of {attr}", len(ws), min(floor, 1))
     for f, rel, st, kind, val, n in ws:
         q = f.qual if f else "<module>"
         kinds = allow.get(q)
